@@ -9,7 +9,7 @@ from gunicorn.http import RequestParser
 
 PROPERTY = "C12"
 RULE = ("(A) limit configs (limit_request_line / fields / field_size incl. 0 and boundary values) x requests built to sit "
-        "d in -4..+4 bytes/fields from each limit (plain and underscore-named fields, with body, pipelined successor, under a "
+        "d in -4..+4 bytes/fields from each limit (plain and underscore-named fields, with body, pipelined successor, optionally after an accepted keep-alive request and 0-2 stray empty lines, under a "
         "drawn segmentation); oracle: over => never yielded, within all limits => no Limit* rejection, 2-byte band where the "
         "documented 'size' may or may not include CRLF. (B) enumerated endless metered sources that never send the "
         "delimiter awaited in request line / header line / header block / chunk-size line / chunk extension / trailer "
@@ -44,6 +44,8 @@ def strategy(tier):
         # a read boundary exactly at / inside the CRLF that ends the request line or the head
         "bcut": st.sampled_from([None, None, "rl-1", "rl", "rl+1", "rl+2", "head-3", "head-2", "head-1", "head"]),
         "proxy": st.sampled_from([False, False, True]),
+        # the measured request is not the first on its connection: an accepted keep-alive request (and stray empty lines) precede it
+        "prior": st.sampled_from([None, None, None, "", "\r\n", "\r\n\r\n"]),
     })
 
 
@@ -113,18 +115,29 @@ def run_case(case):
             stream = pline + stream
         else:
             pline = b""
+    prior = case.get("prior")
+    plen = 0
+    if prior is not None and not pline:
+        pre = b"GET /p HTTP/1.1\r\nHost: x\r\n\r\n" + prior.encode()
+        if (line == 0 or 15 <= line) and fields >= 1 and (fsize == 0 or fsize >= 9):
+            stream = pre + stream
+            plen = len(pre)
+        else:
+            prior = None
+    else:
+        prior = None
     cuts = list(case["cuts"])
     if case.get("bcut"):
-        head_end = stream.find(b"\r\n\r\n") + 4
-        m = dict(m, L=m["L"] + len(pline))
+        head_end = stream.find(b"\r\n\r\n", plen) + 4
+        m = dict(m, L=m["L"] + len(pline) + plen)
         base, _, d = case["bcut"].partition("+") if "+" in case["bcut"] else (case["bcut"].partition("-")[0], "", "-" + case["bcut"].partition("-")[2] if "-" in case["bcut"] else "0")
         off = (m["L"] if base == "rl" else head_end) + int(d or 0)
         cuts.append(off)
         if case.get("big_at", 0) % 2:
             cuts = [off]                 # sometimes the boundary cut is the only one
     reqs, terminal = penv.observe(stream, penv_cap(cuts, len(stream)), cfg)
-    if pline:
-        m = dict(m, L=m["L"] - len(pline)) if case.get("bcut") else m
+    if pline or plen:
+        m = dict(m, L=m["L"] - len(pline) - plen) if case.get("bcut") else m
     over = []
     band = []
     if line > 0:
@@ -140,9 +153,10 @@ def run_case(case):
         elif m["maxF"] + 2 > fsize:
             band.append("field_size")
     vio = []
-    first_is_ours = bool(reqs) and reqs[0]["uri"] != "/n"
+    ours = [r for r in reqs if r["uri"] not in ("/n", "/p")]
+    first_is_ours = bool(ours)
     if over:
-        if first_is_ours or (reqs and not over):
+        if first_is_ours:
             vio.append(Violation("over-limit-rejected", "C12/over-limit-accepted:" + "+".join(over) +
                                  (":underscore" if m["has_underscore"] else ""),
                                  observed={"yielded": len(reqs), "terminal": terminal, "measures": m},
@@ -153,11 +167,11 @@ def run_case(case):
             vio.append(Violation("within-limits-accepted", "C12/within-limits-rejected:" + terminal[4:],
                                  observed={"terminal": terminal, "measures": m, "limits": [line, fields, fsize]},
                                  expected="not rejected for size"))
-        elif not reqs and not refused_underscore:
+        elif not ours and not refused_underscore and not prior:
             vio.append(Violation("within-limits-accepted", "C12/within-limits-not-yielded:" + terminal,
                                  observed={"terminal": terminal, "measures": m}, expected="request yielded"))
     near = (line > 0 and abs(m["L"] - line) <= 3) or abs(m["nf"] - fields) <= 3 or (fsize > 0 and abs(m["maxF"] - fsize) <= 3)
-    classes = ["proxy:%s" % bool(pline), "over:" + ("+".join(over) or "none"), "band:" + ("+".join(band) or "none"),
+    classes = ["proxy:%s" % bool(pline), "prior:%s" % ("none" if prior is None else "request+%d-empty-lines" % (len(prior) // 2)), "over:" + ("+".join(over) or "none"), "band:" + ("+".join(band) or "none"),
                "underscore:%s" % m["has_underscore"], "terminal:" + terminal.split(":")[-1]]
     return Outcome(vio, near, classes,
                    sample={"limits": [case["line"], case["fields"], case["fsize"]], "measures": m, "over": over, "band": band,
@@ -186,6 +200,10 @@ ENDLESS = {
     "request-line-spaces": (b"GET / ", b"HTTP/1.1 " * 8, False, "line0"),
     "proxy-line": (b"PROXY TCP4 ", b"1" * 64, False, "line0"),
     "request-line-after-proxy": (b"PROXY TCP4 192.0.2.1 192.0.2.2 1111 80\r\nGET /", b"a" * 64, False, "line0"),
+    "second-request-line": (b"GET /1 HTTP/1.1\r\nHost: x\r\n\r\nGET /", b"a" * 64, False, "line0"),
+    "second-request-line-after-empty-line": (b"GET /1 HTTP/1.1\r\nHost: x\r\n\r\n\r\nGET /", b"a" * 64, False, "line0"),
+    "second-request-line-after-body": (b"POST /1 HTTP/1.1\r\nContent-Length: 3\r\n\r\nabc\r\n\r\nGET /", b"a" * 64, False, "line0"),
+    "second-header-line": (b"GET /1 HTTP/1.1\r\nHost: x\r\n\r\nGET /2 HTTP/1.1\r\nX-A: ", b"v" * 64, False, None),
     "header-line": (b"GET / HTTP/1.1\r\nX-A: ", b"v" * 64, False, None),
     "header-name": (b"GET / HTTP/1.1\r\n", b"N" * 64, False, None),
     "header-block": (b"GET / HTTP/1.1\r\n", b"X-A: v\r\n" * 8, False, None),
@@ -267,6 +285,9 @@ def run_endless(case):
     outcome = None
     try:
         req = next(parser)
+        if name.startswith("second-"):
+            req.body.read()
+            req = next(parser)
         if needs_body:
             while True:
                 d = req.body.read(8192)
